@@ -20,11 +20,21 @@ structure MRStep (h h' : SlabID → Option (DSlab r)) (I I' : List SlabID) : Pro
   gone : ∀ id, id ∈ I → id ∉ I' → h' id = none
   fresh : ∀ id, id ∈ I' → id ∉ I → h id = none
 
-/-- the heap after an operation that turns `t` into `t'` (same depth): it holds `t'`, `MRStep`, identifiers distinct -/
+/-- an index slab's child headers are the headers of its children (top level only) -/
+def mdr_HdrsOk : (d : Nat) → MTree r d → Prop
+  | 0, _ => True
+  | d + 1, (m : MMetaSlab (MTree r d)) => m.childHdrs = m.children.map (MTree.hdr d)
+
+/-- the heap after an operation that turns `t` into `t'` (same depth): it holds `t'`, `MRStep`, identifiers distinct,
+    child headers = headers of the children -/
 structure MRPost (h h' : SlabID → Option (DSlab r)) {d : Nat} (t t' : MTree r d) (x : Option DX) : Prop where
   holds : MHolds h' d t' x
   step : MRStep h h' (md_ids d t) (md_ids d t')
   nodup : (md_ids d t').Nodup
+  hdrs : mdr_HdrsOk d t'
+
+theorem MRStep.refl (h : SlabID → Option (DSlab r)) (I : List SlabID) : MRStep h h I I :=
+  ⟨fun _ _ _ => rfl, fun _ h1 h2 => absurd h1 h2, fun _ h1 h2 => absurd h1 h2⟩
 
 theorem MRPost.heapPost {h h' : SlabID → Option (DSlab r)} {d : Nat} {t t' : MTree r d} {x : Option DX}
     (p : MRPost h h' t t' x) : MHeapPost h h' t t' x :=
@@ -359,7 +369,7 @@ theorem mdr_full_leaf (hE : ElemsSpec cfg k v P eb) (hP : ∀ g, P g) (sl : MDat
     rw [hrem] at hgo
     obtain ⟨hinl', hid⟩ := mdr_data_remove_inv hrem
     rw [hinl] at hinl'
-    refine ⟨mdr_leafSt s sl' x c', ?_, rfl, rfl, ?_, ?_, ?_⟩
+    refine ⟨mdr_leafSt s sl' x c', ?_, rfl, rfl, ?_, ?_, ?_, trivial⟩
     · simp only [MapSlab_Remove, hgo]
     · show (mdr_leafSt s sl' x c').heap sl'.hdr.id = some (.dataSlab (md_data sl' x))
       simp only [mdr_leafSt, hinl', Bool.false_eq_true, if_false, if_true]
@@ -468,7 +478,7 @@ theorem mdr_full_level (hS : MRSplitTail cfg.T rs) (hM : MRMorTail cfg.T rs) (hm
           obtain ⟨m', c2⟩ := q2
           rw [hsp] at ht
           obtain ⟨s', cc, hcall, hctx', hpop', hpost'⟩ := ht
-          refine ⟨s', ?_, hctx', by rw [hpop', hpop1], ⟨hpost'.holds, hstep.trans hpost'.step, hpost'.nodup⟩⟩
+          refine ⟨s', ?_, hctx', by rw [hpop', hpop1], ⟨hpost'.holds, hstep.trans hpost'.step, hpost'.nodup, hpost'.hdrs⟩⟩
           refine (hgen _ _ _ _ _ (hgo.trans ?_))
           simp only [mdr_after, hIF, hfull, hcall, Option.isNone_none, Bool.not_true, Bool.false_eq_true, if_false]
       | false =>
@@ -490,7 +500,7 @@ theorem mdr_full_level (hS : MRSplitTail cfg.T rs) (hM : MRMorTail cfg.T rs) (hm
             obtain ⟨m', c2⟩ := q2
             rw [hsp] at ht
             obtain ⟨s', cc, hcall, hctx', hpop', hpost'⟩ := ht
-            refine ⟨s', ?_, hctx', by rw [hpop', hpop1], ⟨hpost'.holds, hstep.trans hpost'.step, hpost'.nodup⟩⟩
+            refine ⟨s', ?_, hctx', by rw [hpop', hpop1], ⟨hpost'.holds, hstep.trans hpost'.step, hpost'.nodup, hpost'.hdrs⟩⟩
             refine (hgen _ _ _ _ _ (hgo.trans ?_))
             simp only [mdr_after, hIF, hfull, hIU, hcall, Option.isNone_none, Bool.not_true, Bool.false_eq_true, if_false]
         | none =>
@@ -499,7 +509,7 @@ theorem mdr_full_level (hS : MRSplitTail cfg.T rs) (hM : MRMorTail cfg.T rs) (hm
           have hrootnot : ∀ id ∈ (mdr_model_m1 m child' i).children.flatMap (md_ids d), id ≠ m.hdr.id := by
             intro id hid heq
             exact (List.nodup_cons.mp hpre.nodup).1 (heq ▸ hid)
-          refine ⟨s1.store m.hdr.id (.metaSlab (md_meta (mdr_model_m1 m child' i) x)), ?_, ?_, ?_, ⟨⟨?_, ?_⟩, ?_, hpre.nodup⟩⟩
+          refine ⟨s1.store m.hdr.id (.metaSlab (md_meta (mdr_model_m1 m child' i) x)), ?_, ?_, ?_, ⟨⟨?_, ?_⟩, ?_, hpre.nodup, hpre.hdrs⟩⟩
           · refine (hgen _ _ _ _ _ (hgo.trans ?_))
             simp only [mdr_after, hIF, hfull, hIU]
             rfl
